@@ -58,6 +58,10 @@ Lemma sweep_rr_ok : forallb ok01 sweep_rr = true.
 Proof. vm_compute. reflexivity. Qed.
 Lemma sweep_ri_ok : forallb ok01 sweep_ri = true.
 Proof. vm_compute. reflexivity. Qed.
+(* PUSH imm: every boundary immediate in both modes (the value is pushed with the operand size of the mode) *)
+Definition sweep_push_imm : list (Z * stmt) := flat_map (fun m => map (fun v => (m, SMnem "PUSH" [num v])) imms) modes.
+Lemma sweep_push_imm_ok : forallb ok01 sweep_push_imm = true.
+Proof. vm_compute. reflexivity. Qed.
 Lemma sweep_sreg_ok : forallb ok01 sweep_sreg = true.
 Proof. vm_compute. reflexivity. Qed.
 Lemma sweep_stack_ok : forallb ok01 sweep_stack = true.
